@@ -200,7 +200,7 @@ var specs = []CheckSpec{
 		ID: "C01", Pkg: "testscript", UsesVFS: true,
 		Harnesses: []HarnessSpec{
 			{Fn: "VerifC01Verdict", Quick: map[string]int{"K": 2}, Thorough: map[string]int{"K": 3}, Witness: []string{"pass", "fail", "skip", "continue-on-error"}},
-			{Fn: "VerifC04Background", Quick: map[string]int{"B": 2}, Thorough: map[string]int{"B": 3}, Witness: []string{"wait", "wait-for-named-command"}},
+			{Fn: "VerifC04Background", Quick: map[string]int{"B": 3}, Thorough: map[string]int{"B": 4}, Witness: []string{"wait", "wait-for-named-command"}},
 			{Fn: "VerifC01Exit", Pkg: "cmd/testscript", Quick: map[string]int{}, Thorough: map[string]int{}, Witness: []string{"some-script-failed", "no-script-failed", "two-scripts"}},
 		},
 		Bounds: map[string]string{
@@ -229,11 +229,11 @@ var specs = []CheckSpec{
 		Harnesses: []HarnessSpec{
 			{Fn: "VerifC04Isolation", Quick: map[string]int{"S": 2}, Thorough: map[string]int{"S": 2}, Witness: []string{"removed", "retained", "two-scripts", "fail", "skip", "pass-or-stop", "read-only-dir", "deferred-function-ends-test"}},
 			{Fn: "VerifC04SetupEnds", Witness: []string{"setup-succeeds", "setup-fails", "setup-skips"}},
-			{Fn: "VerifC04Background", Quick: map[string]int{"B": 2}, Thorough: map[string]int{"B": 3}, Witness: []string{"ends-with-processes-running", "wait", "wait-for-named-command", "fails-with-processes-running", "skip-with-processes-running"}},
+			{Fn: "VerifC04Background", Quick: map[string]int{"B": 3}, Thorough: map[string]int{"B": 4}, Witness: []string{"ends-with-processes-running", "wait", "wait-for-named-command", "fails-with-processes-running", "skip-with-processes-running"}},
 		},
 		Bounds: map[string]string{
-			"quick":    "one or two scripts run one after the other through the real RunT; exit kind pass / fail / skip / stop; a read-only directory with a file left in the work dir or not; host environment with GOCOVERDIR and GORACE present or absent plus unrelated variables; TestWork and WorkdirRoot on or off (all choices symbolic); a Setup that registers deferred functions and succeeds / returns an error / skips / FailNow; 1-2 background commands (each: exits by itself with success or failure, or runs until signalled; negated or not) the first one named, followed by nothing / wait / a failing line / skip / stop / wait and a failing line / wait for the named command, verbose or not",
-			"thorough": "same, with up to 3 background commands",
+			"quick":    "one or two scripts run one after the other through the real RunT; exit kind pass / fail / skip / stop; a read-only directory with a file left in the work dir or not; host environment with GOCOVERDIR and GORACE present or absent plus unrelated variables; TestWork and WorkdirRoot on or off (all choices symbolic); a Setup that registers deferred functions and succeeds / returns an error / skips / FailNow; 1-3 background commands (each: exits by itself with success or failure, or runs until signalled; negated or not) the first one named, followed by nothing / wait / a failing line / skip / stop / wait and a failing line / wait for the named command, verbose or not",
+			"thorough": "same, with up to 4 background commands",
 		},
 		Stubs: []string{"as C01; the vfs model enforces directory write permission on unlink so that the chmod walk of removeAll matters", "VerifC04Background: exec.Command, (*exec.Cmd).Start, (*os.Process).Signal/Kill, (*os.ProcessState).Success/String and testscript.waitOrStop over a process table (waitOrStop itself is C17)"},
 		Assumptions: append([]string{"PART CLAIMED: fresh work directory = archive files, environment built from scratch (documented names, Setup additions, GOCOVERDIR/GORACE pass-through, no other host variable), deferred functions in reverse order on every exit kind, work directory and (after the last script) temp root removed unless retention was requested. process liveness over a process model: at the end of RunT every started background process has ended and been waited for. NOT claimed: non-interference of scripts running in parallel goroutines, real OS processes"}, commonAssumptions...),
@@ -268,12 +268,12 @@ var specs = []CheckSpec{
 	{
 		ID: "C11", Pkg: "cache", UsesVFS: true,
 		Harnesses: []HarnessSpec{
-			{Fn: "VerifC11OneWriterOneReader", Quick: map[string]int{"L": 1}, Thorough: map[string]int{"L": 2}, Witness: []string{"fresh", "restore-identical", "overwrite", "lookup-hit", "lookup-miss", "getfile-hit", "several-snapshots"}},
+			{Fn: "VerifC11OneWriterOneReader", Quick: map[string]int{"L": 1}, Thorough: map[string]int{"L": 2}, Witness: []string{"fresh", "restore-identical", "overwrite", "restore-after-trimmed-output", "lookup-hit", "lookup-miss", "getfile-hit", "several-snapshots"}},
 			{Fn: "VerifC11TwoWriters", Quick: map[string]int{"L": 2, "OBS": 0}, Thorough: map[string]int{"L": 2, "OBS": 0}, Witness: []string{"writer-b-ran", "identical-content", "different-content", "lookup-hit", "getfile-hit"}},
 			{Fn: "VerifC11TwoWritersObserved", Thorough: map[string]int{"L": 2, "OBS": 1, "TORN": 0}, ThoroughOnly: true, Witness: []string{"writer-b-ran", "lookup-hit", "lookup-miss"}},
 		},
 		Bounds: map[string]string{
-			"quick":    "one writer (PutBytes of <= 1 symbolic byte over an empty cache, or over an earlier complete Put of equal or of different content) and one reader (GetBytes or GetFile of that id): every interleaving of the reader's file operations with the writer's mutations, every write of several bytes visible torn at representative offsets (any offset for short buffers, every field boundary of the index entry); the reader's i-th operation observes snapshot k_i with k_1 <= k_2 <= ... chosen by the solver among the points where the accessed path changed; two writers of the same id (identical or different content, <= 2 bytes): writer A interrupted before any of its file operations by writer B performing any number of its own operations and then standing still, A finishing, a reader looking the id up afterwards",
+			"quick":    "one writer (PutBytes of <= 1 symbolic byte over an empty cache, over an earlier complete Put of equal or of different content, or over an entry whose output file was trimmed away) and one reader (GetBytes or GetFile of that id): every interleaving of the reader's file operations with the writer's mutations, every write of several bytes visible torn at representative offsets (any offset for short buffers, every field boundary of the index entry); the reader's i-th operation observes snapshot k_i with k_1 <= k_2 <= ... chosen by the solver among the points where the accessed path changed; two writers of the same id (identical or different content, <= 2 bytes): writer A interrupted before any of its file operations by writer B performing any number of its own operations and then standing still, A finishing, a reader looking the id up afterwards",
 			"thorough": "one writer/one reader with data <= 2 bytes; two writers with a reader overlapping them at solver-chosen snapshots (data <= 2 bytes; whole writes, no torn writes: with torn writes the exploration did not finish in 2.5 hours and was cut back)",
 		},
 		Stubs: []string{"as C05; vfs snapshots after every mutation (torn writes included); observer view re-bound to the chosen snapshot before each operation"},
